@@ -204,7 +204,7 @@ CHECKS = {
         "recorded states, fixed-step explicit RK and splitting methods): a run split at one of its own grid points (at least one whole step "
         "before the target) records exactly the times AND states of the single call (split_at_grid_point_changes_no_sample, with a decided "
         "counterexample showing that the distance hypothesis cannot be dropped); tied to the code by harness/runsim.py (dyadic plans: times "
-        "exactly, states against the exact rational states of the model).",
+        "exactly, states against the exact rational states of the model). With the states (DV.Run): after reset(), whatever calls were made before, any later sequence of calls records exactly the times, states and step of a freshly constructed system (reset_then_rerun_equals_fresh: the two systems differ only in buffer capacity and status, which do not influence what is recorded), and reset() leaves the single sample (t0, y0) (reset_back_at_initial_condition).",
    note="Trusted: Lean kernel, standard axioms, harness. The bitwise clauses about y are measurements on the implementation; the model "
         "covers the time grid, dt and status.",
    technique="Lean 4 proof (invariant over arbitrary op lists) + differential op-sequence testing against fresh systems + replay",
